@@ -325,6 +325,12 @@ func (m *model) dkgEnded(gid uint64, how string, got []outEv) string {
 func (m *model) signingCompleted(sid uint64, h int64, got []outEv) string {
 	t := m.tr
 	if t == nil || t.status != stWaitingSign || t.signingID != sid || t.doomed != "" {
+		// completing any other signing (a user request's, or the stale hand-over signing of an earlier, already
+		// dropped transition) says nothing about THIS transition's hand-over message: no effect on the transition
+		if t != nil && t.status == stWaitingSign && t.signingID != sid && len(got) > 0 {
+			m.fail("C18/foreign-signing-advanced-transition", "signing %d completed at height %d; it is not the hand-over signing %d of the open transition, yet bandtss emitted %s (%s): the current group never signed this transition's hand-over message", sid, h, t.signingID, outList(got), m.describe())
+			return ""
+		}
 		m.check(fmt.Sprintf("signing %d completed (not the awaited hand-over)", sid), got, nil)
 		return ""
 	}
